@@ -224,7 +224,10 @@ func pairsCmd(args []string) error {
 	var evals, mism, pairsN, aborted int64
 	var dedup sync.Map
 	var emitted int64
-	const maxEvents = 400000
+	maxEvents := int64(8000)
+	if nconf >= 10 {
+		maxEvents = 60000
+	}
 	var wg sync.WaitGroup
 	rows := make(chan []byte, 64)
 	for w := 0; w < 16; w++ {
@@ -243,10 +246,13 @@ func pairsCmd(args []string) error {
 				json.Unmarshal(raw[2], &codes)
 				A0 := shapes[ai-1]
 				for bi, code := range codes {
-					if stride > 1 && (bi+ai+seed)%stride != 0 {
+					B0 := shapes[bi]
+					// sampling applies to the receivers with many known (and costly to explain) deviations only:
+					// polygon receivers, and line receivers against lines / rectangles / polygons
+					costly := A0.Kind == "poly" || (A0.Kind == "line" && B0.Kind != "pt")
+					if costly && stride > 1 && (bi+ai+seed)%stride != 0 {
 						continue
 					}
-					B0 := shapes[bi]
 					atomic.AddInt64(&pairsN, 1)
 					expInt, expCon := code&1 == 1, code>>1 == 1
 					type res struct {
